@@ -54,8 +54,29 @@ SAMPLER_PARAMS = {
 }
 
 
+def designed_cases(seed, tier):
+    """comparisons between values that are distinct but very close or very large (exactly representable in binary floating
+    point, so that the simulator's float state and the exact reference agree bit for bit): equality must stay exact"""
+    from ..lang.parser import parse_program
+    out = []
+    rng = _random.Random(K.harness_seed(seed, ID + "-designed", 0))
+    templates = [
+        ("halving-equality", "x = 1\nhit = 0\nwhile true:\n    x = x/2\n    if x == 0:\n        hit = hit + 1\n    end\nend\n", 45),
+        ("halving-guard", "x = 1\nsteps = 0\nwhile !(x == 0):\n    x = x/4\n    steps = steps + 1\nend\n", 24),
+        ("halving-mixed", "x = 1\ny = 0\nhit = 0\nwhile true:\n    x = x/2 {1/2} x/4\n    if x <= y:\n        hit = hit + 1\n    end\n    if y >= x:\n        hit = hit + 2\n    end\nend\n", 11),
+        ("large-integers", "x = 1\ny = 1\nhit = 0\nwhile true:\n    x = 4*x\n    y = 4*y\n    if x == y + 1:\n        hit = hit + 1\n    end\n    if x + 1 == y + 1:\n        hit = hit + 4\n    end\nend\n", 22),
+        ("large-integers-ineq", "x = 1\nhit = 0\nwhile true:\n    x = 8*x\n    if x + 1 <= x:\n        hit = hit + 1\n    end\n    if x < x + 1:\n        hit = hit + 2\n    end\nend\n", 15),
+        ("close-to-constant", "x = 1\nhit = 0\nwhile true:\n    x = x/2\n    if 1 + x == 1:\n        hit = hit + 1\n    end\nend\n", 40),
+    ]
+    for name, text, N in templates:
+        prog = parse_program(text)
+        out.append({"id": f"designed-{name}", "kind": "program", "text": text, "ast": prog.to_json(), "N": N,
+                    "max_paths": 150 if tier == "quick" else 1200, "settings": {}, "features": ["designed-close-values", name]})
+    return out
+
+
 def generate(seed, tier):
-    cases = []
+    cases = designed_cases(seed, tier)
     n = NCASES[tier]
     for i in range(n):
         cs = K.harness_seed(seed, ID, i)
